@@ -836,6 +836,59 @@ func c10R2(c *Check, sr *storeRoles) {
 		}
 	}
 	c.Obl(n >= 1, "C10.R2", "created-write/count", "-", fmt.Sprintf("%d writes of the creation time", n), "no write of the session creation time found (anchor lost)")
+	// … and a freshly allocated session (with a new creation time) is put into the map only where no live session is
+	// stored under that id: replacing a live session by a new object restarts its absolute limit
+	nIns := 0
+	for _, fn := range sr.memMethods {
+		ffm := FactsOf(fn)
+		for _, b := range fn.Blocks {
+			for _, ins := range b.Instrs {
+				mu, ok := ins.(*ssa.MapUpdate)
+				if !ok {
+					continue
+				}
+				if _, f, isL := fieldLoad(resolveCell(stripConv(mu.Map))); !isL || f == nil || f.Name() != "sessions" {
+					continue
+				}
+				nIns++
+				// the looked-up session under the same key is known to be absent here
+				absent := false
+				for _, b2 := range fn.Blocks {
+					for _, i2 := range b2.Instrs {
+						var looked ssa.Value
+						var key ssa.Value
+						switch x := i2.(type) {
+						case *ssa.Lookup:
+							if _, f, isL := fieldLoad(resolveCell(stripConv(x.X))); isL && f != nil && f.Name() == "sessions" {
+								looked, key = x, x.Index
+								if x.CommaOk {
+									looked = extractOf(x, 0)
+								}
+							}
+						case *ssa.Call:
+							if callee := x.Common().StaticCallee(); callee != nil && recvNamed(callee) == sr.Mem && x.Type() != nil && sr.SessionType != nil &&
+								types.Identical(derefType(x.Type()), sr.SessionType) {
+								for _, a := range x.Common().Args {
+									if isString(a.Type()) {
+										looked, key = x, a
+									}
+								}
+							}
+						}
+						if looked == nil || key == nil || !sameVal(key, mu.Key) {
+							continue
+						}
+						if ffm.At(mu).IsNil(looked) {
+							absent = true
+						}
+					}
+				}
+				c.Obl(absent, "C10.R2", "insert-only-when-absent/"+fnKey(fn), P.Pos(mu.Pos()), "a session object is put into the map only where no live session is stored under that id",
+					"a session object is put into the map in "+fnKey(fn)+" although a live session may be stored under that id: the replacement carries a new creation time, so activity restarts the absolute limit")
+			}
+		}
+	}
+	c.Obl(nIns >= 1, "C10.R2", "insert-sites", "-", fmt.Sprintf("%d insertions into the session map", nIns), "no insertion into the session map found (anchor lost)")
 	// redis: time_added only through HSetNX
 	nx := 0
 	for _, fn := range sr.redisMethods {
